@@ -591,6 +591,21 @@ func c20Run(p *c20pool, jobs []c20job, inject *rand.Rand, start time.Time, rec *
 			if w.Gradient() == nil {
 				return out, fmt.Errorf("private leaf received no gradient")
 			}
+			// BackPropagate from a private UNTRACKED root computed from the shared untracked tensor (it is the first operand):
+			// by C08 this changes nothing - in particular it must not touch the shared tensor other goroutines build graphs on
+			if e := span("BackPropagate(private untracked root over a shared untracked tensor)", []int{u}, func() error {
+				frozen := rt.MustLeaf(RandT(r, shape, -1, 1), false)
+				e1, err := p.ts[u].Mul(frozen)
+				if err != nil {
+					return err
+				}
+				if err := tensor.BackPropagate(e1.Tanh()); err != nil {
+					return err
+				}
+				return tensor.BackPropagate(p.ts[u].Scale(2))
+			}); e != nil {
+				return out, e
+			}
 			if e := hashBits(&out, w.Gradient()); e != nil {
 				return out, e
 			}
